@@ -12,8 +12,6 @@ namespace K
 variable {α : Type} [Add α] [Sub α] [Mul α] [Div α] [Neg α] [LT α] [LE α]
   [DecidableLT α] [DecidableLE α] [OfScientific α] [KOps α]
 
-/-- mirrors: command.rs::ValueChangeCommand waiting in a `CommandReader` (latest write wins) -/
-abbrev Cmd (α τ : Type) := Option (Value α τ × Tween α)
 
 /-- mirrors: parameter.rs::Parameter::read_command -/
 def Parameter.readCommand {τ : Type} (p : Parameter α τ) (c : Cmd α τ) : Parameter α τ :=
